@@ -13,8 +13,8 @@ sed -i "s|=> /repo|=> $R|" $V/harness/go.mod
 rc=0
 for P in "$@"; do
   ( cd $V && VERIF_REPO=$R ./check $P quick > $V/out_$P.txt 2>&1; echo $? > $V/rc_$P.txt )
-  grep -E "VIOLATION|KNOWN-FINDING|quick:|thorough:|error" $V/out_$P.txt | cut -c1-300 | sed "s|$V|/verif|g" | tail -12
-  [ "$(cat $V/rc_$P.txt)" != "0" ] && rc=1
+  grep -E "VIOLATION|quick:|thorough:|error" $V/out_$P.txt | cut -c1-300 | sed "s|$V|/verif|g" | tail -40
+  r=$(cat $V/rc_$P.txt); [ "$r" = "1" ] && [ $rc -ne 2 ] && rc=1; [ "$r" != "0" ] && [ "$r" != "1" ] && rc=2
 done
 if [ -n "${KEEP_REPLAYS:-}" ]; then mkdir -p /tmp/mv_replays_$ID && cp -r $V/replays/* /tmp/mv_replays_$ID/ 2>/dev/null; echo "replays: /tmp/mv_replays_$ID"; fi
 git -C /repo worktree remove --force $R
